@@ -179,7 +179,8 @@ def analyze(ctx, want):
     # =================================================================== next_match
     nm = F.fn(r"FindMatchesImpl::<..>::next_match$")
     ctx.analysed_fn(nm)
-    ex, paths = run_fn(nm, F, Model(), inline=GETTERS)
+    # (the helper that steps the cursor beyond a match is looked through: it may be a method or written in place)
+    ex, paths = run_fn(nm, F, Model(), inline=GETTERS + r"|FindMatchesImpl::<..>::advance_beyond_match$")
     outcomes = {"some": 0, "skip": 0, "exhausted": 0}
     for p in paths:
         att = p.calls(r"ScannerImpl::find_from$")
@@ -199,15 +200,29 @@ def analyze(ctx, want):
            "cursor handed to the attempt: %s" % S.vstr(cur), nm.loc(a[1]))
         nexts = [e for e in p.events if e[0] == "cursor-next"]
         rec = p.calls(r"FindMatchesImpl::<..>::record_line_offset$")
-        adv = p.calls(r"FindMatchesImpl::<..>::advance_beyond_match$")
+        adv = p.calls(r"FindMatchesImpl::<..>::advance_to$")
         if v == "Some":
             outcomes["some"] += 1
             payload = ("field", ("downcast", res, "Some"), "0")
             ok_end = p.end[0] == "return" and variant_of(ex, p, p.end[1]) == "Some"
             ob("C01.d", "next_match:match-is-returned", ok_end, "Some path ends with %s" % (p.end[0],), nm.loc())
-            ok_adv = len(adv) == 1 and adv[0][3][0][0] == "ref" and adv[0][3][1] == payload
-            ob("C07.b", "next_match:cursor-advanced-beyond-the-unshifted-match", ok_adv,
-               "advance_beyond_match called %d time(s) with %s" % (len(adv), [S.vstr(x[3][1]) for x in adv]), nm.loc())
+            from .common import ordering_of
+            pst, pen = ("field", ("field", payload, "span"), "start"), ("field", ("field", payload, "span"), "end")
+            se_ = ordering_of(p.conds, lambda x: x == pst, lambda x: x == pen)
+            if se_ <= {"E", "G"}:
+                # an empty match (excluded by the property's precondition) does not move the cursor
+                ob("C07.b", "next_match:empty-match-no-advance", not adv, "empty match: %d advance_to calls" % len(adv), nm.loc())
+            else:
+                ok_adv = len(adv) == 1
+                if ok_adv:
+                    tgt_ = adv[0][3][1]
+                    lin_, c_ = S.linear(tgt_)
+                    ok_adv = c_ == 0 and lin_ == {pen: 1, ("field", ("sym", "self"), "offset"): 1}
+                ob("C07.b", "next_match:cursor-advanced-beyond-the-unshifted-match", ok_adv,
+                   "advance_to called %d time(s) with %s (must be once, with the end of the attempt's match plus the offset)" % (len(adv), [S.vstr(x[3][1]) for x in adv]), nm.loc())
+                if len(adv) == 1:
+                    k_ = kind(adv[0][3][1], {})
+                    ob("C10.a", "advance_beyond_match:passes-absolute-end", k_ == ABS, "advance_to(%s) kind %s (match spans from the attempt are relative to the offset)" % (S.vstr(adv[0][3][1]), kname(k_)), nm.loc(adv[0][1]))
             ob("C01.d", "next_match:no-skip-on-match", not nexts and not rec, "cursor.next()/record_line_offset on the match path: %d/%d" % (len(nexts), len(rec)), nm.loc())
             if ok_end:
                 r = p.end[1][3][0] if p.end[1][0] == "adt" else None
@@ -269,7 +284,7 @@ def analyze(ctx, want):
                     ob("C09.d", "next_match:exhaustion-records-end-of-input", len(rec) == 0, "record_line_offset called %d times on exhaustion" % len(rec), nm.loc())
             else:
                 ob("C01.d", "next_match:skip-path-end", False, "unexpected end %s" % (p.end,), nm.loc())
-            ob("C07.b", "next_match:no-advance-on-failed-attempt", not adv, "advance_beyond_match on a failed attempt", nm.loc())
+            ob("C07.b", "next_match:no-advance-on-failed-attempt", not adv, "advance_to on a failed attempt", nm.loc())
         else:
             ob("C01.d", "next_match:path-classified", False, "a path does not branch on the attempt's result", nm.loc())
         # direct writes to cursor fields inside next_match (other than through the callees above)
@@ -390,8 +405,28 @@ def analyze(ctx, want):
             continue
         ht = p.calls(r"ScannerImpl::has_transition$")
         switched = any(variant_of(ex, p, h[4]) == "Some" for h in ht)
-        eqn = [o for c, o in p.conds if c[0] == "binop" and c[1] == "Eq" and "len" in S.vstr(c) and S.vstr(c[3]) == "n" or (c[0] == "binop" and c[1] == "Eq" and S.vstr(c[2]) == "n")]
+        # what the path established about the number of collected matches, in any spelling: == n (==, cmp, guard of a match arm)
+        # and == 0 (is_empty(), == 0, a match arm `0 =>`)
+        from .common import ordering_of
+
+        def is_len(x):
+            return x[0] == "app" and re.search(r"Vec::<.*>::len$", str(x[1])) is not None
+        # (only the classification's own tests: the loop condition `len < n` belongs to an earlier state of the vector)
+        cls_conds = [(c, o) for c, o in p.conds if not (c[0] == "binop" and c[1] in ("Lt", "Le", "Gt", "Ge"))]
+        on_ = ordering_of(cls_conds, is_len, lambda x: x == ("sym", "n"))
+        eqn = [True] if on_ == {"E"} else ([False] if "E" not in on_ else [])
         empt = [o for c, o in p.conds if c[0] == "app" and re.search(r"Vec::<.*>::is_empty$", c[1])]
+        oz_ = ordering_of(cls_conds, is_len, lambda x: x == ("int", 0))
+        if oz_ == {"E"}:
+            empt.append(True)
+        elif "E" not in oz_:
+            empt.append(False)
+        for c, o in p.conds:
+            if is_len(c):        # a switch on the length itself
+                if o == 0:
+                    empt.append(True)
+                elif isinstance(o, tuple) and o and o[0] == "otherwise" and 0 in o[1]:
+                    empt.append(False)
         if switched:
             exp = "MatchesReachedModeSwitch"
         elif eqn and eqn[-1] is True:
@@ -571,7 +606,7 @@ def analyze(ctx, want):
                           (r"<with_positions::WithPositions<I> as position::PositionProvider>::position$", r"^<I as position::PositionProvider>::position$", "offset")):
         fn = F.fn(pat)
         # intermediate forwarding layers of the wrapper are looked through (they may or may not exist)
-        ex, paths = run_fn(fn, F, Model(), inline=r"FindMatchesImpl::<..>::with_offset$|find_matches::FindMatches::<..>::next_match$")
+        ex, paths = run_fn(fn, F, Model(), inline=r"FindMatchesImpl::<..>::with_offset$|find_matches::FindMatches::<..>::(next_match|set_offset)$")
         okall = True
         det = ""
         recv = "self.iter" if "WithPositions" in pat else "self.inner"
@@ -686,7 +721,11 @@ def analyze(ctx, want):
         if early:
             ob("C10.a", "advance_to:early-return-writes-nothing", not ws, "early return writes %s" % sorted(ws), at.loc())
             continue
-        ob("C09.c", "advance_to:writes-last_char-and-last_position", "last_char" in ws and "last_position" in ws, "writes %s" % sorted(ws), at.loc())
+        got_item_ = any(e[0] == "write" and e[2][0] == "local" and e[4][0] == "field" and e[4][1][0] == "sym" and e[4][1][1].startswith("ci_item@") for e in p.events)
+        # with a consumed char both fields describe it afterwards; without one (cursor already exhausted) last_char keeps
+        # its value (written back unchanged or not written at all)
+        ok_w = ("last_char" in ws and "last_position" in ws) if got_item_ else ("last_position" in ws and ("last_char" not in ws or S.vstr(ws["last_char"]) == "self.last_char"))
+        ob("C09.c", "advance_to:writes-last_char-and-last_position", ok_w, "writes %s (char consumed: %s)" % (sorted(ws), got_item_), at.loc())
         if "last_char" in ws and any(e[0] == "write" and e[2][0] == "local" and e[4][0] == "field" and e[4][1][0] == "sym" and e[4][1][1].startswith("ci_item@") for e in p.events):
             lc = ws["last_char"]
             ob("C09.c", "advance_to:last_char-is-the-consumed-char", lc[0] == "field" and lc[2] == "1" and lc[1][0] == "sym" and lc[1][1].startswith("ci_item@"),
@@ -703,30 +742,31 @@ def analyze(ctx, want):
                "is_empty=%s, merge calls=%d" % (emp[-1][1], len(mg)), at.loc())
 
     # advance_beyond_match passes the absolute end
-    ab = F.fn(r"FindMatchesImpl::<..>::advance_beyond_match$")
-    ctx.analysed_fn(ab)
-    ex, paths = run_fn(ab, F, Model(), inline=GETTERS)
-    env = {"rel_matches": ("matched",)}
+    abs_ = F.fn_opt(r"FindMatchesImpl::<..>::advance_beyond_match$")
     n = 0
-    for p in ret_paths(paths):
-        c = p.calls(r"FindMatchesImpl::<..>::advance_to$")
-        emp = [(cc, o) for cc, o in p.conds if (cc[0] == "app" and re.search(r"Match::is_empty$", cc[1]))]
-        # any spelling of start >= end (the accessors are analysed in place)
-        from .common import ordering_of
-        se = ordering_of(p.conds, lambda x: S.vstr(x).endswith("span.start"), lambda x: S.vstr(x).endswith("span.end"))
-        if (emp and emp[-1][1] is True) or se <= {"E", "G"}:
-            ob("C07.b", "advance_beyond_match:empty-match-no-advance", not c, "empty match: %d advance_to calls" % len(c), ab.loc())
-            continue
-        n += 1
-        ok = len(c) == 1
-        if ok:
-            k = kind(c[0][3][1], env)
-            ob("C10.a", "advance_beyond_match:passes-absolute-end", k == ABS, "advance_to(%s) kind %s (match spans from the attempt are relative to the offset)" % (S.vstr(c[0][3][1]), kname(k)), ab.loc(c[0][1]))
-            ob("C07.b", "advance_beyond_match:advances-to-the-match-end", "span" in S.vstr(c[0][3][1]) and ".end" in S.vstr(c[0][3][1]) and "matched" in S.vstr(c[0][3][1]),
-               "advance_to(%s)" % S.vstr(c[0][3][1]), ab.loc(c[0][1]))
-        else:
-            ob("C07.b", "advance_beyond_match:advances-once", False, "%d advance_to calls" % len(c), ab.loc())
-    if "C07.b" in want:
+    env = {"rel_matches": ("matched",)}
+    for ab in abs_:
+      ctx.analysed_fn(ab)
+      ex, paths = run_fn(ab, F, Model(), inline=GETTERS)
+      for p in ret_paths(paths):
+          c = p.calls(r"FindMatchesImpl::<..>::advance_to$")
+          emp = [(cc, o) for cc, o in p.conds if (cc[0] == "app" and re.search(r"Match::is_empty$", cc[1]))]
+          # any spelling of start >= end (the accessors are analysed in place)
+          from .common import ordering_of
+          se = ordering_of(p.conds, lambda x: S.vstr(x).endswith("span.start"), lambda x: S.vstr(x).endswith("span.end"))
+          if (emp and emp[-1][1] is True) or se <= {"E", "G"}:
+              ob("C07.b", "advance_beyond_match:empty-match-no-advance", not c, "empty match: %d advance_to calls" % len(c), ab.loc())
+              continue
+          n += 1
+          ok = len(c) == 1
+          if ok:
+              k = kind(c[0][3][1], env)
+              ob("C10.a", "advance_beyond_match:passes-absolute-end", k == ABS, "advance_to(%s) kind %s (match spans from the attempt are relative to the offset)" % (S.vstr(c[0][3][1]), kname(k)), ab.loc(c[0][1]))
+              ob("C07.b", "advance_beyond_match:advances-to-the-match-end", "span" in S.vstr(c[0][3][1]) and ".end" in S.vstr(c[0][3][1]) and "matched" in S.vstr(c[0][3][1]),
+                 "advance_to(%s)" % S.vstr(c[0][3][1]), ab.loc(c[0][1]))
+          else:
+              ob("C07.b", "advance_beyond_match:advances-once", False, "%d advance_to calls" % len(c), ab.loc())
+    if "C07.b" in want and abs_:
         ctx.floor("C07.b", "non-empty paths of advance_beyond_match", n, 1)
 
     # =================================================================== line bookkeeping
@@ -858,6 +898,8 @@ def analyze(ctx, want):
         for p in ret_paths(paths):
             r = p.end[1]
             up = c.upvar_names()
+            if r[0] != "cmp" and not (r[0] == "adt" and str(r[1]).endswith("Ordering")):
+                continue      # not a comparator (e.g. the arms of a map_or_else on the search result)
             p2 = c.names().get(2, "arg2")
             ok = r[0] == "cmp" and (p2 in S.vstr(r[1]) or "arg2" in S.vstr(r[1])) and "arg1" in S.vstr(r[2]) and "arg1" not in S.vstr(r[1]) and up.get(0) == "offset"
             ob("C09.f", "position:comparator-orientation", ok, "comparator returns %s (element compared with the offset, in that order)" % S.vstr(r), c.loc())
